@@ -204,6 +204,22 @@ def case_cross_renamed():
         ("root", {"r": {"x": 4}})]
 
 
+def case_control():
+    """POSITIVE CONTROL, not library code: an element class defined HERE that keeps per-call
+    state on the shared element.  Every run must find it racy through every channel (monitor ->
+    TLC candidate -> gate replay -> R_C14 rejects; pre-emption sweep); its rejections are never
+    reported, their absence is a machinery failure."""
+    E, P = _lib()
+
+    class Racy(E.Element):
+        def construct(self, value, property_):
+            self.scratch = value              # write to the shared element
+            _ = self.minimum                  # a monitored access in between (a gate point)
+            return self.scratch * 10          # ... and read back
+
+    return {"r": Racy()}, [("r", 1), ("r", 2), ("r", 3)]
+
+
 class Case:
     def __init__(self, name, mk, groups, tier="quick", finding=None):
         self.name, self.mk, self.groups, self.tier, self.finding = name, mk, groups, tier, finding
@@ -222,6 +238,7 @@ def cases(tier):
         Case("formats", case_formats, [(0, 1), (2, 3)]),
         Case("explicit_required", case_explicit_required, [(0, 1), (1, 2)]),
         Case("cross_renamed", case_cross_renamed, [(0, 1), (2, 3), (1, 0)], finding="cross_renamed"),
+        Case("control", case_control, [(0, 1), (0, 1, 2)]),
     ]
     return cs
 
